@@ -114,7 +114,8 @@ fn plan(prop: &str) -> Vec<(Eng, u64, u64)> {
     match prop {
         "C02" => vec![(Eng::E1U, 200_000, 1_500_000)],
         "C18" => vec![(Eng::E1J, 200_000, 500_000)],
-        "C01" | "C03" | "C07" => vec![(Eng::E1U, 90_000, 800_000), (Eng::E1J, 80_000, 300_000)],
+        "C01" | "C03" => vec![(Eng::E1U, 90_000, 800_000), (Eng::E1J, 80_000, 300_000)],
+        "C07" => vec![(Eng::E1U, 90_000, 800_000), (Eng::E1J, 80_000, 300_000), (Eng::E5, 6_000, 150_000), (Eng::E5J, 4_000, 80_000)],
         "C17" => vec![(Eng::E1U, 35_000, 30_000), (Eng::E1J, 25_000, 12_000)], // thorough: fewer but far larger runs (batches up to 5000)
         "C04" | "C05" | "C06" | "C09" | "C10" | "C11" | "C12" => vec![(Eng::E3, 150_000, 1_000_000)],
         "C20" => vec![(Eng::E2U, 70_000, 1_000_000), (Eng::E2J, 60_000, 400_000)],
